@@ -77,9 +77,28 @@ func (g *gen) stat(s string) { g.stats[s]++ }
 
 var strParts = []Str{{"a", "a"}, {"b", "b"}, {"xyz", "xyz"}, {"é", "é"}, {"😀", "😀"}, {`\"`, `"`}, {`\\`, `\`}, {`\/`, "/"}, {`\n`, "\n"},
 	{`\t`, "\t"}, {`\r`, "\r"}, {`\b`, "\b"}, {`\f`, "\f"}, {`A`, "A"}, {`é`, "é"}, {" ", " "}, {"/", "/"}, {"{", "{"}, {"]", "]"},
-	{":", ":"}, {",", ","}, {"@", "@"}, {"|", "|"}, {"//", "//"}, {"#", "#"}, {"0", "0"}, {"-", "-"}, {"*/", "*/"}, {"'", "'"}}
+	{":", ":"}, {",", ","}, {"@", "@"}, {".", "."}, {"e", "e"}, {"1", "1"}, {"\\u002e", "."}, {"|", "|"}, {"//", "//"}, {"#", "#"}, {"0", "0"}, {"-", "-"}, {"*/", "*/"}, {"'", "'"}}
+
+// Strings whose CONTENT looks like another JSON kind (or like nothing): a quoted token is a string whatever it holds.
+var lookalikes = []Str{{`"a.b"`, "a.b"}, {`"1.5"`, "1.5"}, {`"1"`, "1"}, {`"-0"`, "-0"}, {`"1e5"`, "1e5"}, {`"true"`, "true"}, {`"false"`, "false"},
+	{`"null"`, "null"}, {`"{"`, "{"}, {`"["`, "["}, {`""`, ""}, {`" "`, " "}, {`"."`, "."}, {`"e"`, "e"}, {`"v1.2"`, "v1.2"}, {`"0.0"`, "0.0"},
+	{`"\u0031.5"`, "1.5"}, {`"a\u002Eb"`, "a.b"}, {`"tru\u0065"`, "true"}, {`"\u006eull"`, "null"}, {`"1\u002e"`, "1."}, {`"\u002E5"`, ".5"},
+	{`"{}"`, "{}"}, {`"[1]"`, "[1]"}, {`"1E+2"`, "1E+2"}, {`"@t"`, "@t"}}
+
+func isLookalike(dec string) bool {
+	for _, l := range lookalikes {
+		if l.Dec == dec {
+			return true
+		}
+	}
+	return strings.Contains(dec, ".")
+}
 
 func (g *gen) str(min int) Str {
+	if min == 0 && g.r.Intn(4) == 0 {
+		g.stat("lookalike_string")
+		return lookalikes[g.r.Intn(len(lookalikes))]
+	}
 	n := min + g.r.Intn(4)
 	var s, d strings.Builder
 	s.WriteByte('"')
@@ -630,13 +649,10 @@ func (p *printer) brk(multi bool) string { // blank between tokens of an annotat
 }
 
 // ruleName: bare or quoted; a bare name may be followed by spaces but not by a tab (scanner rule), so the
-// blank after the name is chosen here. inSet: inside an or rule-set the name `enum` is only recognised bare.
+// blank after the name is chosen here.
 func (p *printer) ruleName(s string, inSet bool) string {
-	if p.r.Intn(3) == 0 && !(inSet && s == "enum") {
+	if p.r.Intn(3) == 0 {
 		return `"` + s + `"` + p.sp()
-	}
-	if inSet && s == "enum" {
-		return s // … and only when the colon follows immediately
 	}
 	return s + []string{"", "", " ", "  "}[p.r.Intn(4)]
 }
